@@ -191,9 +191,18 @@ class ASTCFG(dict[str, WritableASTBlock]):
         empty = set()
         for name, block in list(self.items()):
             if not block.instructions:
-                empty.add(self.pop(name))
                 # Empty blocks can only have a single jump target.
                 it = block.jump_targets[0]
+                if name == "0" and any(
+                    it in b.jump_targets
+                    for b in self.values()
+                    if b is not block
+                ):
+                    # The entry block stays if its successor has other
+                    # predecessors (a loop header), such that the CFG keeps
+                    # a unique block without predecessors.
+                    continue
+                empty.add(self.pop(name))
                 # Iterate over the blocks looking for blocks that point to the
                 # removed block. Then rewire the jump_targets accordingly.
                 for b in list(self.values()):
@@ -876,7 +885,11 @@ class SCFG2ASTTransformer:
                 )
                 if_node = ast.If(test, body, orelse)
                 return block.tree[:-1] + [if_node]
-            elif block.fallthrough and type(block.tree[-1]) is ast.Return:
+            elif (
+                block.fallthrough
+                and block.tree
+                and type(block.tree[-1]) is ast.Return
+            ):
                 # The value of the ast.Return could be either None or an
                 # ast.AST type. In the case of None, this refers to a plain
                 # 'return', which is implicitly 'return None'. So, if it is
